@@ -21,7 +21,7 @@ pub(super) fn armor_of(bytes: &[u8], typ: BlockType) -> Option<Vec<u8>> {
     Some(out)
 }
 
-fn assemble(packets: &[(u8, &[u8])]) -> Vec<u8> {
+pub(super) fn assemble(packets: &[(u8, &[u8])]) -> Vec<u8> {
     let mut v = Vec::new();
     for (t, b) in packets {
         v.extend(sigrec::packet5(*t, b));
@@ -29,7 +29,7 @@ fn assemble(packets: &[(u8, &[u8])]) -> Vec<u8> {
     v
 }
 
-fn msg_class(stage: &str, msg: &str) -> String {
+pub(super) fn msg_class(stage: &str, msg: &str) -> String {
     let c = classify(msg);
     // an error that is not one of the guards: where it happened
     if c == "err:pk" {
@@ -40,7 +40,7 @@ fn msg_class(stage: &str, msg: &str) -> String {
 }
 
 /// the three message-level entry points on one byte string; answers are canonical classes
-fn run_message(bytes: &[u8], vk: &VK, armored: bool) -> Vec<(&'static str, String)> {
+pub(super) fn run_message(bytes: &[u8], vk: &VK, armored: bool) -> Vec<(&'static str, String)> {
     let mut out = Vec::new();
     let parse = |b: &[u8]| -> Result<Message<'static>, String> {
         // the message owns its source
@@ -107,7 +107,7 @@ fn run_message(bytes: &[u8], vk: &VK, armored: bool) -> Vec<(&'static str, Strin
 
 /// fold the three answers into the one the model predicts: `verify_read` and `verify` give the
 /// guard; `verify_nested` only says valid / invalid
-fn fold(ctx: &mut Ctx, site: &str, inp: &str, runs: &[(&'static str, String)]) -> String {
+pub(super) fn fold(ctx: &mut Ctx, site: &str, inp: &str, runs: &[(&'static str, String)]) -> String {
     // `read_to_end -> verify` separates the reader's errors from the verification's
     let first = runs[1].1.clone();
     for (i, (s, a)) in runs.iter().enumerate() {
@@ -140,21 +140,21 @@ fn ops_disagrees(ops: &[u8], sig: &[u8]) -> bool {
     !(ver_ok && typ == f.typ && hash == f.hash && pk == f.pk && (v != 6 || salt == f.salt))
 }
 
-struct Parts {
-    ops: Option<Vec<u8>>,
+pub(super) struct Parts {
+    pub ops: Option<Vec<u8>>,
     /// literal packet body up to the data (mode, name, date)
-    lit_head: Vec<u8>,
-    data: Vec<u8>,
-    sig: Vec<u8>,
+    pub lit_head: Vec<u8>,
+    pub data: Vec<u8>,
+    pub sig: Vec<u8>,
 }
 
 impl Parts {
-    fn lit(&self) -> Vec<u8> {
+    pub fn lit(&self) -> Vec<u8> {
         let mut v = self.lit_head.clone();
         v.extend_from_slice(&self.data);
         v
     }
-    fn bytes(&self) -> Vec<u8> {
+    pub fn bytes(&self) -> Vec<u8> {
         let lit = self.lit();
         match &self.ops {
             Some(o) => assemble(&[(4, o), (11, &lit), (2, &self.sig)]),
@@ -179,7 +179,7 @@ fn ops_fields(ops: &[u8]) -> Vec<Field> {
     v
 }
 
-fn request(p: &Parts, vk: &VK, t: &Tables) -> String {
+pub(super) fn request(p: &Parts, vk: &VK, t: &Tables) -> String {
     let ops = match &p.ops {
         Some(o) => format!(" ops={}", hx(o)),
         None => String::new(),
@@ -187,13 +187,13 @@ fn request(p: &Parts, vk: &VK, t: &Tables) -> String {
     format!("snd_verify ep=inline sig={}{} data={} {} {}", hx(&p.sig), ops, hx(&p.data), kdesc("k", &vk.k), t.show(vk.yes))
 }
 
-fn tables(t0: &Tables, p: &Parts) -> Tables {
+pub(super) fn tables(t0: &Tables, p: &Parts) -> Tables {
     let back = parse_sig(&p.sig).map(|s| body_of(&s)).unwrap_or_default();
     tables_for(t0, &[&p.sig, &back], &Subject::Doc(p.data.clone()))
 }
 
 /// one (mutated) message: run, fold, emit case, return the answer
-fn one(ctx: &mut Ctx, site: &str, inp: &str, p: &Parts, vk: &VK, t0: &Tables, with_armor: bool) -> String {
+pub(super) fn one(ctx: &mut Ctx, site: &str, inp: &str, p: &Parts, vk: &VK, t0: &Tables, with_armor: bool) -> String {
     let bytes = p.bytes();
     let mut runs = run_message(&bytes, vk, false);
     if with_armor {
